@@ -41,11 +41,12 @@ def plugin_topology(rng):
     k = rng.choice([1, 2, 2, 3])
     pools = []
     subnets = ["10.1.0.0/24", "10.2.0.0/24", "10.3.0.0/24"]
+    share = rng.random() < 0.3      # the pools share one pod subnet (same gateway), with disjoint ranges and their own node subnets
     for i in range(k):
-        base = (10 << 24) | ((100 + i) << 16)
+        base = (10 << 24) | ((100 + (0 if share else i)) << 16)
         ns = rng.sample(subnets, rng.choice([1, 2, 3]))
         rs = []
-        cur = base + 2
+        cur = base + 2 + (16 * i if share else 0)
         for _ in range(rng.choice([1, 2])):
             last = cur + rng.choice([0, 1, 2, 3])
             rs.append([cur, last])
